@@ -19,6 +19,7 @@ type SpecEnv struct {
 	fx    *FuncExec // program-variable lookup (nil when evaluating a callee contract at a call site)
 	pos   token.Pos
 	inOld bool
+	loopSnap map[int]*State
 	depth int
 	err   error
 }
@@ -333,7 +334,9 @@ func (e *SpecEnv) index(v, i Val, x ast.Expr) Val {
 	switch a := v.(type) {
 	case SliceV:
 		if a.Arr == 0 {
-			return e.fail("index into nil slice in spec %s", exprString(x))
+			// nil slice: every index is out of range; the value is unconstrained
+			et := a.Typ.Underlying().(*types.Slice).Elem()
+			return e.st.treeSelect(e.st.c.pkg.seqTreeOf(e.st.c, et, "nilelem", false), idx())
 		}
 		seq, ok := st.objs[a.Arr].(SeqV)
 		if !ok {
@@ -419,6 +422,20 @@ func (e *SpecEnv) call(x *ast.CallExpr) Val {
 			e.err = n.err
 		}
 		return r
+	case "at_loop":
+		// at_loop(k, e): value of e when the current iteration of loop k started (at its header)
+		kv, ok := e.eval(x.Args[0]).(ConstV)
+		if !ok || e.loopSnap == nil || e.loopSnap[int(kv.N.Int64())] == nil {
+			return e.fail("at_loop: no snapshot for that loop here")
+		}
+		n := *e
+		n.st = e.loopSnap[int(kv.N.Int64())]
+		// evaluate against the snapshot heap; fresh symbols still go to the live context
+		r := n.eval(x.Args[1])
+		if n.err != nil && e.err == nil {
+			e.err = n.err
+		}
+		return r
 	case "implies":
 		return Scalar{tImplies(e.boolTerm(x.Args[0]), e.boolTerm(x.Args[1])), boolT}
 	case "iff":
@@ -446,13 +463,35 @@ func (e *SpecEnv) call(x *ast.CallExpr) Val {
 		if et == nil || !ok {
 			return e.fail("forall_slice: bad element type or variable")
 		}
-		es := st.c.pkg.scalarSort(et)
-		if es == "" {
-			return e.fail("forall_slice: only scalar element types")
+		var binders []string
+		var mk func(t types.Type, hint string) (SeqTree, bool)
+		mk = func(t types.Type, hint string) (SeqTree, bool) {
+			if stt, ok := t.Underlying().(*types.Struct); ok {
+				tr := SeqTree{Typ: t}
+				for i := 0; i < stt.NumFields(); i++ {
+					sub, ok := mk(stt.Field(i).Type(), hint+"_"+stt.Field(i).Name())
+					if !ok {
+						return tr, false
+					}
+					tr.Fields = append(tr.Fields, sub)
+				}
+				return tr, true
+			}
+			es := st.c.pkg.scalarSort(t)
+			if es == "" {
+				return SeqTree{}, false
+			}
+			an := st.c.boundName(hint + "_arr")
+			binders = append(binders, fmt.Sprintf("(%s %s)", an, arrSort(es)))
+			return SeqTree{Arr: Term{an, arrSort(es)}, Typ: t}, true
 		}
-		an, on, ln := st.c.boundName(id.Name+"_arr"), st.c.boundName(id.Name+"_off"), st.c.boundName(id.Name+"_len")
+		tree, ok := mk(et, id.Name)
+		if !ok {
+			return e.fail("forall_slice: unsupported element type")
+		}
+		on, ln := st.c.boundName(id.Name+"_off"), st.c.boundName(id.Name+"_len")
 		oid := st.c.newObj()
-		seq := SeqV{Tree: SeqTree{Arr: Term{an, arrSort(es)}, Typ: et}, Typ: et}
+		seq := SeqV{Tree: tree, Typ: et}
 		st.objs[oid] = seq
 		if e.old != nil {
 			e.old.objs[oid] = seq
@@ -464,7 +503,23 @@ func (e *SpecEnv) call(x *ast.CallExpr) Val {
 			e.err = sub.err
 		}
 		g := tAnd(tLe(intLit(0), Term{on, SInt}), tLe(intLit(0), Term{ln, SInt}))
-		return Scalar{Term{fmt.Sprintf("(forall ((%s %s) (%s Int) (%s Int)) %s)", an, arrSort(es), on, ln, tImplies(g, body).S), SBool}, boolT}
+		// integer elements are within the range of their type
+		var rng []Term
+		var addRng func(tr SeqTree)
+		addRng = func(tr SeqTree) {
+			for _, f := range tr.Fields {
+				addRng(f)
+			}
+			if tr.Fields == nil {
+				if ii, ok := st.c.pkg.intInfo(tr.Typ); ok && !ii.bv {
+					kb := st.c.boundName("k")
+					rng = append(rng, Term{fmt.Sprintf("(forall ((%s Int)) (! (and (<= %s (select %s %s)) (<= (select %s %s) %s)) :pattern ((select %s %s))))", kb, bigLit(ii.min()).S, tr.Arr.S, kb, tr.Arr.S, kb, bigLit(ii.max()).S, tr.Arr.S, kb), SBool})
+				}
+			}
+		}
+		_ = addRng // range guards deliberately not added: the quantified statement then covers all integer arrays
+		_ = rng
+		return Scalar{mkForall(fmt.Sprintf("%s (%s Int) (%s Int)", strings.Join(binders, " "), on, ln), tImplies(g, body)), boolT}
 	case "isnil":
 		v := e.eval(x.Args[0])
 		return Scalar{st.eqValNil(v, Scalar{Term{"ref_nil", SRef}, types.Typ[types.UntypedNil]}), boolT}
@@ -576,20 +631,26 @@ func (e *SpecEnv) quant(kind string, x *ast.CallExpr) Val {
 	var trigX ast.Expr
 	if kind == "forall_t" {
 		// forall_t(k, lo, hi, trigger, body)
-		if len(args) != 5 {
-			return e.fail("forall_t(k, lo, hi, trigger, body)")
+		if len(args) != 5 && len(args) != 6 {
+			return e.fail("forall_t([type,] k, lo, hi, trigger, body)")
 		}
-		trigX = args[3]
-		args = append(append([]ast.Expr(nil), args[:3]...), args[4])
+		n := len(args)
+		trigX = args[n-2]
+		args = append(append([]ast.Expr(nil), args[:n-2]...), args[n-1])
 		kind = "forall"
 	}
+	mathint := false
 	if len(args) == 5 {
 		tn := exprString(args[0])
-		bk, ok := basicKindByName[tn]
-		if !ok {
-			return e.fail("quantifier type %s", tn)
+		if tn == "mathint" {
+			mathint = true
+		} else {
+			bk, ok := basicKindByName[tn]
+			if !ok {
+				return e.fail("quantifier type %s", tn)
+			}
+			typ = types.Typ[bk]
 		}
-		typ = types.Typ[bk]
 		args = args[1:]
 	}
 	if len(args) != 4 {
@@ -620,7 +681,7 @@ func (e *SpecEnv) quant(kind string, x *ast.CallExpr) Val {
 		guards = append(guards, tLe(lo, kInt))
 	}
 	if hinf {
-		if !ii.bv {
+		if !ii.bv && !mathint {
 			guards = append(guards, tLe(kInt, bigLit(ii.max())))
 		}
 	} else {
@@ -638,9 +699,9 @@ func (e *SpecEnv) quant(kind string, x *ast.CallExpr) Val {
 		if !ok {
 			return e.fail("trigger must be a scalar term")
 		}
-		t = Term{fmt.Sprintf("(forall ((%s %s)) (! %s :pattern (%s)))", bn, ii.sort(), tImplies(tAnd(guards...), body).S, ts.T.S), SBool}
+		t = mkForall(fmt.Sprintf("(%s %s)", bn, ii.sort()), Term{fmt.Sprintf("(! %s :pattern (%s))", tImplies(tAnd(guards...), body).S, ts.T.S), SBool})
 	} else if kind == "forall" {
-		t = Term{fmt.Sprintf("(forall ((%s %s)) %s)", bn, ii.sort(), tImplies(tAnd(guards...), body).S), SBool}
+		t = mkForall(fmt.Sprintf("(%s %s)", bn, ii.sort()), tImplies(tAnd(guards...), body))
 	} else {
 		t = Term{fmt.Sprintf("(exists ((%s %s)) %s)", bn, ii.sort(), tAnd(append(guards, body)...).S), SBool}
 	}
@@ -709,7 +770,12 @@ func (e *SpecEnv) callPure(pf *PureFunc, x *ast.CallExpr) Val {
 		case SliceV:
 			seq, ok := e.cur().objs[v.Arr].(SeqV)
 			if !ok {
-				return e.fail("%s: slice argument without backing array", pf.Name)
+				if v.Arr != 0 {
+					return e.fail("%s: slice argument without backing array", pf.Name)
+				}
+				// nil slice: contents are irrelevant (length 0)
+				et := v.Typ.Underlying().(*types.Slice).Elem()
+				seq = SeqV{Tree: st.c.pkg.seqTreeOf(st.c, et, "nilarr", false), Typ: et}
 			}
 			flat = append(flat, st.leaves(seq.Tree)...)
 			flat = append(flat, v.Off, v.Len)
